@@ -4,7 +4,7 @@
 //! (`Server::listen` in a thread, loopback UDP, multi-port and single-port) over a grid and compares the files:
 //!   direction {download, upload} x blksize {8, 512, 1468} x windowsize {1, 3} x timeout option 2 s x
 //!   file size {0, 1, blk-1, blk, blk+1, ws*blk, ws*blk+1, 3*ws*blk+7} x {multi-port, single-port},
-//!   a nested / Windows-style request path (stored under its base name), one transfer of more than 65535 blocks,
+//!   a nested / Windows-style request path (stored under its base name), one transfer of more than 65535 blocks (windowsize 64),
 //!   and the refusal kinds (missing file, existing file without overwrite, read-only server): the client must report an
 //!   error and create no file.
 //! exit 1 with a COUNTEREXAMPLE line on a violation.   usage: bounded_client [quick|full]
@@ -84,7 +84,7 @@ fn fail(what: String) -> ! {
 }
 
 fn main() {
-    let full = std::env::args().nth(1).map(|s| s == "full").unwrap_or(false);
+    let _full = std::env::args().nth(1).map(|s| s == "full").unwrap_or(false);
     let base = scratch_dir("bounded_client");
     let mut cases = 0u64;
     for single in [false, true] {
@@ -171,7 +171,7 @@ fn main() {
                 }
             }
         }
-        if full && !srv.single {
+        if !srv.single {
             // more than 65535 blocks: block numbers wrap
             cases += 1;
             let size = 8 * 65537 + 3;
